@@ -120,6 +120,7 @@ def cargo_build(pkg, release=False, timeout=3000, features=None):
 
 def run_bin(path, args, timeout=3000, env=None, ok_codes=(0,)):
     e = dict(os.environ)
+    e["RUST_BACKTRACE"] = "0"
     if env:
         e.update(env)
     p = subprocess.run([path] + args, cwd=WORK, env=e, stdout=subprocess.PIPE, stderr=subprocess.PIPE, timeout=timeout)
@@ -127,6 +128,39 @@ def run_bin(path, args, timeout=3000, env=None, ok_codes=(0,)):
         sys.stderr.write(p.stderr.decode(errors="replace")[-4000:])
         raise ToolError("%s %s exited with %s" % (os.path.basename(path), " ".join(args[:2]), p.returncode))
     return p
+
+def run_bin_resilient(path, args, recs, out, died_check, timeout=3000, env=None, max_deaths=100000):
+    """Runs a harness subcommand that handles one record per input line and writes one result line per record.
+    If the process is killed (abort / signal raised by the code under test), the record being handled is given the
+    failure `died_check` and the run is resumed after it."""
+    total = sum(1 for l in open(recs) if l.strip())
+    start, deaths = 0, 0
+    if os.path.exists(out):
+        os.remove(out)
+    while True:
+        e = dict(os.environ)
+        if env:
+            e.update(env)
+        e["WIRE_START"] = str(start)
+        e["RUST_BACKTRACE"] = "0"
+        p = subprocess.run([path] + args + [recs, out], cwd=WORK, env=e, stdout=subprocess.PIPE, stderr=subprocess.PIPE, timeout=timeout)
+        done = sum(1 for _ in open(out)) if os.path.exists(out) else 0
+        if p.returncode == 0:
+            return deaths
+        if p.returncode > 0 and p.returncode != 134:
+            sys.stderr.write(p.stderr.decode(errors="replace")[-3000:])
+            raise ToolError("%s %s exited with %s" % (os.path.basename(path), " ".join(args), p.returncode))
+        # killed by a signal (negative return code) or abort
+        deaths += 1
+        if deaths > max_deaths:
+            raise ToolError("%s died more than %d times" % (os.path.basename(path), max_deaths))
+        msg = p.stderr.decode(errors="replace").strip().splitlines()
+        first = next((l for l in msg if "alloc" in l or "panicked" in l or "overflow" in l), msg[0] if msg else "")
+        with open(out, "a") as o:
+            o.write(json.dumps({"i": done, "fails": [{"check": died_check, "detail": "process killed (rc=%s) while handling this record: %s" % (p.returncode, first[:200])}], "obs": None}) + "\n")
+        start = done + 1
+        if start >= total:
+            return deaths
 
 def gen_types(outdir, crate, shards, inputs):
     p = subprocess.run([sys.executable, os.path.join(ROOT, "gen", "gen_types.py"), outdir, crate, str(shards)] + inputs,
@@ -301,3 +335,11 @@ def hashmap_value_contains_key_container(subject):
 @predicate
 def contains_repr_enum_unit_beside_payload(subject):
     return any_node(subject["t"], _enum_unit_and_payload)
+
+@predicate
+def bulk_of_bool_char_or_repr_enum(subject):
+    def risky(e):
+        return (e["k"] == "p" and e["s"] in ("bool", "char")) or (e["k"] == "enum" and e["s"] != "") \
+            or (e["k"] in ("arr", "tup", "struct") and any(risky(c) for c in e["ts"]))
+    return any_node(subject["t"], lambda x: ((x["k"] == "vec" and x["s"] in ("Vec", "BoxSlice", "ArcSlice", "ArrayVec")) or x["k"] == "arr")
+                    and risky(x["ts"][0]))
